@@ -844,11 +844,6 @@ def gen_layouts():
 TARGETS.append(("Layouts", gen_layouts))
 
 
-if __name__ == "__main__":
-    import json
-    print(json.dumps(regenerate(), indent=1))
-
-
 # ------------------------------------------------------------------------------------- G6: documented contract
 def gen_docs():
     """`:raises` clauses of the adapter interfaces and the adapter methods each `_on_<method>` handler calls."""
@@ -917,3 +912,265 @@ def gen_docs():
 
 
 TARGETS.append(("Docs", gen_docs))
+
+
+# ------------------------------------------------------------------------------------- G7: structural skeletons
+BUILTINS = {"len", "str", "isinstance", "bytes", "int", "float", "max", "min", "dict", "list", "tuple", "set", "repr", "format", "type", "super", "print", "bool", "range", "enumerate", "zip", "sorted", "iter", "next", "getattr", "hasattr"}
+
+
+def skeleton(fn, cls_name=None):
+    """ordered structural events of a function body (no local names, no literals, no logging)."""
+    out = []
+
+    def callee(f):
+        try:
+            return ast.unparse(f)
+        except Exception:
+            return "?"
+
+    def expr(e):
+        """events of an expression, in evaluation (source) order"""
+        if e is None:
+            return
+        for n in _walk_expr(e):
+            pass
+
+    def _walk_expr(e):
+        # post-order: arguments before the call itself
+        if e is None:
+            return []
+        if isinstance(e, ast.Call):
+            if is_logging(ast.Expr(value=e)):
+                return []
+            if isinstance(e.func, ast.Attribute):
+                _walk_expr(e.func.value)
+            for a in e.args:
+                _walk_expr(a.value if isinstance(a, ast.Starred) else a)
+            for k in e.keywords:
+                _walk_expr(k.value)
+            name = callee(e.func)
+            base = name.split(".")[-1]
+            if not (isinstance(e.func, ast.Name) and name in BUILTINS) and base not in ("format", "join", "encode", "decode"):
+                out.append("C " + name)
+            return []
+        if isinstance(e, ast.Attribute):
+            if isinstance(e.value, ast.Name) and e.value.id == "self" and isinstance(e.ctx, ast.Load):
+                out.append("R self." + e.attr)
+                return []
+            _walk_expr(e.value)
+            return []
+        if isinstance(e, (ast.Lambda, ast.GeneratorExp, ast.ListComp, ast.SetComp, ast.DictComp)):
+            for c in ast.iter_child_nodes(e):
+                _walk_expr(c)
+            return []
+        for c in ast.iter_child_nodes(e):
+            if isinstance(c, ast.expr):
+                _walk_expr(c)
+            elif isinstance(c, ast.comprehension):
+                _walk_expr(c.iter)
+                for i in c.ifs:
+                    _walk_expr(i)
+            elif isinstance(c, ast.keyword):
+                _walk_expr(c.value)
+        return []
+
+    def target(t):
+        if isinstance(t, (ast.Tuple, ast.List)):
+            for x in t.elts:
+                target(x)
+            return
+        base = t
+        sub = False
+        while isinstance(base, ast.Subscript):
+            _walk_expr(base.slice)
+            base = base.value
+            sub = True
+        if isinstance(base, ast.Attribute) and isinstance(base.value, ast.Name) and base.value.id == "self":
+            out.append("W self." + base.attr + ("[]" if sub else ""))
+        elif isinstance(base, ast.Attribute):
+            _walk_expr(base.value)
+            out.append("W ." + base.attr)
+        # plain local names: not recorded
+
+    def block(stmts):
+        for s in stmts:
+            stmt(s)
+
+    def stmt(s):
+        if is_logging(s):
+            return
+        if isinstance(s, ast.Expr):
+            if isinstance(s.value, ast.Constant):
+                return                      # docstring
+            _walk_expr(s.value)
+            if isinstance(s.value, (ast.Yield, ast.YieldFrom)):
+                out.append("YIELD")
+        elif isinstance(s, ast.Assign):
+            _walk_expr(s.value)
+            for t in s.targets:
+                target(t)
+        elif isinstance(s, ast.AugAssign):
+            _walk_expr(s.value)
+            if isinstance(s.target, ast.Attribute) and isinstance(s.target.value, ast.Name) and s.target.value.id == "self":
+                out.append("R self." + s.target.attr)
+            target(s.target)
+        elif isinstance(s, ast.AnnAssign):
+            _walk_expr(s.value)
+            target(s.target)
+        elif isinstance(s, ast.Delete):
+            for t in s.targets:
+                target(t)
+        elif isinstance(s, ast.With):
+            names = []
+            for it in s.items:
+                nm = ast.unparse(it.context_expr)
+                names.append(nm)
+                out.append("L+ " + nm)
+            block(s.body)
+            for nm in reversed(names):
+                out.append("L- " + nm)
+        elif isinstance(s, ast.If):
+            _walk_expr(s.test)
+            out.append("IF")
+            block(s.body)
+            if s.orelse:
+                out.append("ELSE")
+                block(s.orelse)
+            out.append("END")
+        elif isinstance(s, ast.While):
+            _walk_expr(s.test)
+            out.append("WHILE")
+            block(s.body)
+            out.append("END")
+        elif isinstance(s, ast.For):
+            _walk_expr(s.iter)
+            out.append("FOR")
+            block(s.body)
+            out.append("END")
+        elif isinstance(s, ast.Try):
+            out.append("TRY")
+            block(s.body)
+            for h in s.handlers:
+                out.append("EXCEPT " + (ast.unparse(h.type) if h.type is not None else "*"))
+                block(h.body)
+            if s.orelse:
+                out.append("ELSE")
+                block(s.orelse)
+            if s.finalbody:
+                out.append("FINALLY")
+                block(s.finalbody)
+            out.append("END")
+        elif isinstance(s, ast.Return):
+            _walk_expr(s.value)
+            out.append("RETURN")
+        elif isinstance(s, ast.Raise):
+            _walk_expr(s.exc)
+            out.append("RAISE")
+        elif isinstance(s, ast.Break):
+            out.append("BREAK")
+        elif isinstance(s, ast.Continue):
+            out.append("CONTINUE")
+        elif isinstance(s, ast.Pass):
+            pass
+        elif isinstance(s, (ast.FunctionDef,)):
+            out.append("DEF " + s.name)
+            block(s.body)
+            out.append("END")
+        elif isinstance(s, (ast.Import, ast.ImportFrom, ast.Global, ast.Nonlocal)):
+            pass
+        else:
+            raise Unsupported("skeleton: statement %s" % type(s).__name__)
+    block(fn.body)
+    return out
+
+
+ALL = None      # every method of the class
+
+
+GROUPS = {
+    "Sub": [("subscription.py", "_ItemTaskManager", ALL),
+            ("subscription.py", "ItemTask", ALL),
+            ("subscription.py", "SubscriptionManager", ALL),
+            ("server.py", "DataProviderServer", ["_on_sub", "_on_usb", "update", "end_of_snapshot", "clear_snapshot", "failure", "_send_notify", "_handle_exception"])],
+    "Sender": [("server.py", "_Sender", ALL)],
+    "Reader": [("server.py", "_RequestManager", ALL),
+               ("server.py", "Server", ["on_received_request", "on_exception", "on_ioexception", "_handle_exception", "_handle_ioexception"])],
+    "Lifecycle": [("server.py", "Server", ["start", "close", "_send_remote_credentials", "_send_reply"]),
+                  ("server.py", "DataProviderServer", ["start", "_on_request_manager_started"]),
+                  ("server.py", "MetadataProviderServer", ["start", "_on_request_manager_started"])],
+    "MetaPool": [("server.py", "MetadataProviderServer", ["_handle_request"]),
+                 ("server.py", "DataProviderServer", ["_handle_request"])],
+}
+
+WATCHED_ATTRS = ["init_expected", "_close_expected", "_code", "_queued", "_isrunning", "_last_subscribe_outcome", "_active_items",
+                 "_tasks_deq", "_keepalive", "_configured_keep_alive", "_send_queue", "_request_manager", "_server_sock", "_executor"]
+
+
+def gen_skeleton():
+    """Structural skeleton (lock sections, shared-state reads/writes, calls, control structure; no local names, literals,
+    logging or comments) of the thread-facing code, per group, and the methods that write each watched attribute."""
+    out = HEADER % "subscription.py, server.py (structural skeletons of the concurrent code)"
+    out += "namespace Ari.Gen\n\n"
+    trees = {}
+    for g, specs in GROUPS.items():
+        rows = []
+        for rel, cls, fns in specs:
+            if rel not in trees:
+                trees[rel] = parse(rel)[0]
+            c = find_class(trees[rel], cls)
+            if c is None:
+                raise Unsupported("class %s not found" % cls)
+            defs = [x for x in c.body if isinstance(x, ast.FunctionDef)]
+            if fns is ALL:
+                chosen = defs
+            else:
+                chosen = []
+                for fname in fns:
+                    f = [x for x in defs if x.name == fname]
+                    if len(f) != 1:
+                        raise Unsupported("%s.%s: %d definitions" % (cls, fname, len(f)))
+                    chosen.append(f[0])
+            for f in chosen:
+                rows.append(("%s.%s" % (cls, f.name), skeleton(f)))
+        out += "/-- group %s -/\ndef skel%s : List (String × List String) :=\n [" % (g, g) + ",\n  ".join(
+            "(%s, [%s])" % (lean_str(n), ", ".join(lean_str(t) for t in sk)) for n, sk in rows) + "]\n\n"
+    writers = {a: [] for a in WATCHED_ATTRS}
+    for rel in ("subscription.py", "server.py"):
+        t = trees.get(rel) or parse(rel)[0]
+        for c in t.body:
+            if not isinstance(c, ast.ClassDef):
+                continue
+            for f in c.body:
+                if not isinstance(f, ast.FunctionDef):
+                    continue
+                hit = set()
+                for n in ast.walk(f):
+                    tg = []
+                    if isinstance(n, ast.Assign):
+                        tg = n.targets
+                    elif isinstance(n, (ast.AugAssign, ast.AnnAssign)):
+                        tg = [n.target]
+                    elif isinstance(n, ast.Delete):
+                        tg = n.targets
+                    for x in tg:
+                        for y in ast.walk(x):
+                            if isinstance(y, ast.Attribute) and y.attr in writers and isinstance(y.ctx, (ast.Store, ast.Del)):
+                                hit.add(y.attr)
+                            if isinstance(y, ast.Subscript) and isinstance(y.value, ast.Attribute) and y.value.attr in writers and isinstance(y.ctx, (ast.Store, ast.Del)):
+                                hit.add(y.value.attr)
+                    if isinstance(n, ast.Call) and isinstance(n.func, ast.Name) and n.func.id == "setattr":
+                        raise Unsupported("setattr in %s.%s" % (c.name, f.name))
+                for a in sorted(hit):
+                    writers[a].append("%s.%s" % (c.name, f.name))
+    out += "/-- watched attribute -> methods that assign it (whole package, source order). -/\n"
+    out += "def writers : List (String × List String) :=\n [" + ",\n  ".join(
+        "(%s, [%s])" % (lean_str(a), ", ".join(lean_str(m) for m in ms)) for a, ms in writers.items()) + "]\n\nend Ari.Gen\n"
+    return out
+
+
+TARGETS.append(("Skeleton", gen_skeleton))
+
+
+if __name__ == "__main__":
+    import json
+    print(json.dumps(regenerate(), indent=1))
